@@ -11,7 +11,7 @@ def showOpt (name : String) : Option Nat → String
   | none => ""
 
 /--
-* `simple <PRIM> <min|n> <max|n> <patterns>` → `type <ty>` | `base <ty> [pattern <text>] [minLength n] [maxLength n]` | `error` | `greenery`
+* `simple <PRIM> <min|n> <max|n> <patterns>` → `type <ty>` | `base <ty> [pattern <text>] [minLength n] [maxLength n]` | `error` | `base <ty> pattern * [minLength n] [maxLength n]` (two or more patterns: one facet, text by greenery)
 * `list <min|n> <max|n>` → `occurs <min> <max|unbounded>`
 -/
 def handle : List String → Option String
@@ -24,7 +24,7 @@ def handle : List String → Option String
       | .restricted ty p a b =>
         "base " ++ ty ++ (match p with | some t => " pattern " ++ Text.enc t | none => "") ++ showOpt "minLength" a ++ showOpt "maxLength" b
       | .error => "error"
-      | .greenery => "greenery"
+      | .greenery ty a b => "base " ++ ty ++ " pattern *" ++ showOpt "minLength" a ++ showOpt "maxLength" b
       | .unknownPrimitive => "unknown-primitive")
   | ["list", mn, mx] => do
     let mn ← optNat mn
